@@ -6,11 +6,14 @@ Call monitors (attached in place on cryocat.cryomap, so calls made from inside c
                        out[c + R v] = in[c + v] (1e-12) for every voxel c+v at least one voxel away from every face, c = N//2.
   window_indices       post(get_start_end_indices), even window sizes: the slices describe [floor(c-N/2), +N) n [0,V).
   extract_window       post(extract_subvolume), even window sizes: requested window copied, out-of-volume voxels = volume mean.
+  coord_unchanged      witness, post(extract_subvolume / get_start_end_indices): the caller's coordinate ndarray keeps its values.
   place_cube           post(place_object), all poses cube rotations, binary templates in even boxes: the container equals the
                        permuted templates stamped at floor(position-1-N/2)+j with the colour field, later particles overwriting.
   sym_mean             post(symmetrize_volume): equals the mean of n real rotate calls by k*360/n (1e-9, non-face voxels).
   sym_invariant_exact  post(symmetrize_volume), n in {2,4}: invariant under the 360/n voxel permutation (1e-12).
 Driver-side relational oracles (run_case):
+  extract_window_reused   one float64 centre array reused for 2..3 extract_subvolume calls (same/other volume and window size), every
+                          call judged against the centre's ORIGINAL values
   rotate_analytic / rotate_centroid / rotate_inverse   random R on Gaussian blobs (closed-form rotated image, centroid, inverse)
   place_random / place_centroid                        random poses, smooth templates: analytic stamp up to an undetermined band
   sym_analytic / sym_invariant / sym_total             closed-form C_n mean, invariance via a real rotate, total density
@@ -75,12 +78,12 @@ def plan(tier):
     if tier == "quick":
         return dict(n_cases=18 * 14, shards=2, classes=CLASSES, timeout_s=600, env=env,
                     min_evals={"rotate_cube": 400, "rotate_analytic": 40, "rotate_centroid": 40, "rotate_inverse": 40,
-                               "window_indices": 400, "extract_window": 120, "place_cube": 45, "place_random": 12, "place_centroid": 15,
+                               "window_indices": 400, "extract_window": 150, "extract_window_reused": 70, "coord_unchanged": 200, "place_cube": 45, "place_random": 12, "place_centroid": 15,
                                "sym_mean": 40, "sym_invariant_exact": 12, "sym_analytic": 30, "sym_invariant": 30, "sym_total": 30,
                                "link_c05": 40})
     return dict(n_cases=18 * 300, shards=16, classes=CLASSES, timeout_s=3000, env=env,
                 min_evals={"rotate_cube": 11000, "rotate_analytic": 800, "rotate_centroid": 800, "rotate_inverse": 800,
-                           "window_indices": 10000, "extract_window": 3000, "place_cube": 800, "place_random": 270, "place_centroid": 500,
+                           "window_indices": 10000, "extract_window": 3500, "extract_window_reused": 1500, "coord_unchanged": 5000, "place_cube": 800, "place_random": 270, "place_centroid": 500,
                            "sym_mean": 800, "sym_invariant_exact": 200, "sym_analytic": 500, "sym_invariant": 500, "sym_total": 500,
                            "link_c05": 700})
 
@@ -184,9 +187,29 @@ def _app_indices(A):
     return True
 
 
+def _snap_coord(A, name):
+    """the caller's own coordinate array (when it is an ndarray) and a copy of its values before the call"""
+    c = A[name]
+    return (c, np.array(c, copy=True)) if isinstance(c, np.ndarray) else None
+
+
+def _judge_coord_unchanged(ctx, snap, where):
+    if snap is None:
+        return
+    obj, before = snap
+    same = obj.shape == before.shape and bool(np.array_equal(obj, before))
+    ctx.check("coord_unchanged", same, {"what": "%s changed the caller's coordinate array" % where, "before": before.tolist(),
+                                        "after": np.asarray(obj).tolist(), "dtype": str(before.dtype)})
+
+
+def _snap_indices(A):
+    return _snap_coord(A, "coord")
+
+
 def _post_indices(ctx, A, old, res):
     w = O.judge_indices(A["_c"], A["_v"], A["_s"], res)
     ctx.check("window_indices", w is None, w)
+    _judge_coord_unchanged(ctx, old, "get_start_end_indices")
 
 
 def _app_extract(A):
@@ -200,13 +223,13 @@ def _app_extract(A):
 
 
 def _snap_extract(A):
-    return np.array(A["volume"], copy=True)
+    return np.array(A["volume"], copy=True), _snap_coord(A, "coordinates")
 
 
-def _post_extract(ctx, A, vol, res):
-    exp, st, n_in = O.expected_window(vol, A["_c"], A["_s"])
+def judge_window(vol, coord, shape, res):
+    """-> (kind of window, witness or None): res must be the window of `shape` centred at `coord` cut from `vol`"""
+    exp, st, n_in = O.expected_window(vol, coord, shape)
     kind = "fully_inside" if n_in == exp.size else ("fully_outside" if n_in == 0 else "partly_outside")
-    _bump(ctx, "extract_windows_" + kind)
     w = None
     if not isinstance(res, np.ndarray) or res.shape != exp.shape:
         w = {"what": "shape of the subvolume", "got": list(np.shape(res)), "expected": list(exp.shape)}
@@ -214,7 +237,7 @@ def _post_extract(ctx, A, vol, res):
         scale = max(1.0, float(np.abs(vol.astype(float)).max()))
         d = np.abs(res.astype(float) - exp)
         # copied voxels exactly; the fill is the volume mean as numpy computes it in the volume's own precision
-        idx = [st[k] + np.arange(A["_s"][k]) for k in range(3)]
+        idx = [st[k] + np.arange(shape[k]) for k in range(3)]
         src_in = np.ix_(*[(idx[k] >= 0) & (idx[k] < vol.shape[k]) for k in range(3)])
         tol = np.full(exp.shape, max(1e-9, 64.0 * float(np.finfo(vol.dtype).eps) if vol.dtype.kind == "f" else 1e-9) * scale)
         tol[src_in] = 0.0
@@ -223,10 +246,18 @@ def _post_extract(ctx, A, vol, res):
             j = np.argwhere(bad)[0]
             src = st + j
             inside = bool(np.all((src >= 0) & (src < np.asarray(vol.shape))))
-            w = {"what": "subvolume voxel", "window": kind, "coordinates": A["_c"].tolist(), "subvolume_shape": A["_s"], "volume_shape": list(vol.shape),
-                 "voxel": j.tolist(), "volume_voxel": src.tolist(), "source_inside_volume": inside, "got": float(res[tuple(j)]),
-                 "expected": float(exp[tuple(j)]), "volume_mean": O.mean_of(vol), "n_wrong": int(bad.sum())}
+            w = {"what": "subvolume voxel", "window": kind, "coordinates": np.asarray(coord, dtype=float).tolist(), "subvolume_shape": list(shape),
+                 "volume_shape": list(vol.shape), "voxel": j.tolist(), "volume_voxel": src.tolist(), "source_inside_volume": inside,
+                 "got": float(res[tuple(j)]), "expected": float(exp[tuple(j)]), "volume_mean": O.mean_of(vol), "n_wrong": int(bad.sum())}
+    return kind, w
+
+
+def _post_extract(ctx, A, old, res):
+    vol, snap = old
+    kind, w = judge_window(vol, A["_c"], A["_s"], res)
+    _bump(ctx, "extract_windows_" + kind)
     ctx.check("extract_window", w is None, w)
+    _judge_coord_unchanged(ctx, snap, "extract_subvolume")
 
 
 def _binary_even_template(T):
@@ -371,11 +402,11 @@ def setup(ctx):
     from cryocat import cryomap, cryomotl
     ctx.cmap, ctx.cmotl = cryomap, cryomotl
     f_rot = monitors.wrap(ctx, cryomap, "rotate", "rotate_cube", _post_rotate, _app_rotate, _snap_rotate)
-    f_idx = monitors.wrap(ctx, cryomap, "get_start_end_indices", "window_indices", _post_indices, _app_indices)
+    f_idx = monitors.wrap(ctx, cryomap, "get_start_end_indices", "window_indices", _post_indices, _app_indices, _snap_indices)
     f_ext = monitors.wrap(ctx, cryomap, "extract_subvolume", "extract_window", _post_extract, _app_extract, _snap_extract)
     f_plc = monitors.wrap(ctx, cryomap, "place_object", "place_cube", _post_place, _app_place)
     f_sym = monitors.wrap(ctx, cryomap, "symmetrize_volume", "sym_mean", _post_sym, _app_sym, _snap_sym)
-    ctx.declare("sym_invariant_exact", "rotate_analytic", "rotate_centroid", "rotate_inverse", "place_random", "place_centroid",
+    ctx.declare("coord_unchanged", "extract_window_reused", "sym_invariant_exact", "rotate_analytic", "rotate_centroid", "rotate_inverse", "place_random", "place_centroid",
                 "sym_analytic", "sym_invariant", "sym_total", "link_c05")
     Mo = cryomotl.Motl
     monitors.trace(ctx, [
@@ -499,9 +530,19 @@ def gen_extract(rng, cls, big):
     V = [int(v) for v in rng.integers(6, 25 if not big else 49, 3)]
     vol = noise_volume(rng, tuple(V))
     wins = [gen_window(rng, cls, V) for _ in range(4)]
-    return {"vol": vol, "wins": wins,
+    # one float64 centre array REUSED for 2..3 successive calls: same / another volume, same / other even window sizes
+    V2 = [int(v) for v in rng.integers(6, 25 if not big else 49, 3)]
+    vol2 = noise_volume(rng, tuple(V2))
+    first = gen_window(rng, cls, V)
+    seq = [{"N": first["N"], "vol": 0}]
+    for _ in range(int(rng.integers(1, 3))):
+        same_size = rng.random() < 0.5
+        seq.append({"N": list(first["N"]) if same_size else [int(2 * rng.integers(1, 9)) for _ in range(3)], "vol": int(rng.integers(0, 2))})
+    reuse = {"coord": first["coord"], "start": first["start"], "frac": first["frac"], "seq": seq}
+    return {"vol": vol, "vol2": vol2, "wins": wins, "reuse": reuse,
             "summary": {"volume": V, "dtype": str(vol.dtype), "windows": [{"window": w["N"], "start": w["start"], "frac": w["frac"]} for w in wins],
-                        "coord0": np.round(wins[0]["coord"], 6).tolist(), "v0": float(vol.reshape(-1)[0])}}
+                        "coord0": np.round(wins[0]["coord"], 6).tolist(), "v0": float(vol.reshape(-1)[0]),
+                        "reuse": {"coord": np.round(reuse["coord"], 6).tolist(), "calls": [{"window": q["N"], "volume": q["vol"]} for q in seq], "volume2": V2}}}
 
 
 def binary_template(rng, shape):
@@ -845,6 +886,25 @@ def run_extract(ctx, case):
                 pass
 
 
+def run_extract_reuse(ctx, case):
+    """the same float64 centre array handed to successive calls; every call is judged against the ORIGINAL centre"""
+    cm = ctx.cmap
+    ru = case["reuse"]
+    original = np.array(ru["coord"], dtype=np.float64)
+    centre = original.copy()                                 # the caller's array, reused
+    vols = [case["vol"], case["vol2"]]
+    for k, q in enumerate(ru["seq"]):
+        vol = vols[q["vol"]]
+        ok, res = ctx.call("extract_subvolume", cm.extract_subvolume, vol, centre, tuple(q["N"]))
+        if not ok:
+            return
+        kind, w = judge_window(vol, original, q["N"], res)
+        if w is not None:
+            w.update({"call_number": k + 1, "same_centre_array_reused": True, "centre_array_now": centre.tolist(), "original_centre": original.tolist()})
+        _bump(ctx, "extract_reused_windows_" + kind)
+        ctx.check("extract_window_reused", w is None, w)
+
+
 def build_motl(ctx, case):
     cm = ctx.cmotl
     df = case["df"].copy()
@@ -1038,6 +1098,7 @@ def run_case(ctx, case):
         run_blob(ctx, case)
     elif cls.startswith("extract_"):
         run_extract(ctx, case)
+        run_extract_reuse(ctx, case)
     elif cls.startswith("place_"):
         run_place(ctx, case)
     elif cls.startswith("sym_"):
